@@ -1,4 +1,5 @@
 import TrionModel.Lemmas.C04Prog
+import TrionModel.Lemmas.C04DiagRun
 import TrionModel.Props.C04Closed
 /-!
 # C04 closed, program level — `.addr A; .const n₁, e₁; …; .const n_k, e_k; <statement>` through `Asm.run`
@@ -88,5 +89,141 @@ example : defsTable exDefs [] = some [(bytesOf "base", some 0x20000000), (bytesO
       (Args.ofList [.ident (bytesOf "label")]).toList = some (.b 14 (-260)) ∧
     Codec.encode (.b 14 (-260)) = .ok [0xE77E] := by
   refine ⟨by decide, by decide, rfl⟩
+
+/-- C04t.b  **Diagnosed direction through the whole pipeline model.**  Same programs as `run_defs_stmt`
+(`.addr A;`, definitions building `tbl`, ONE instruction statement `name args` with a known mnemonic and operands of the
+documented forms over defined names): if the statement has NO encodable meaning — `means` is `none` (wrong operand count
+or kind, overflow, target not an address, …), or the instruction does not fit its field types, or the encoder refuses it
+(out of range, misaligned, high register, …) — then `Asm.run` ends in an outcome that is NOT a success, records at least
+one diagnostic, and EVERY recorded diagnostic is positioned at the statement: file `main`, line and column of the
+statement's element (by C12 `Parse.stmt_pos` the position of its first token).  This covers the first attempt, the
+placeholder, the queued retry (`local_tasks`, then `finalize`): whatever they do, nothing is reported elsewhere and the
+run does not succeed. -/
+theorem run_defs_stmt_diag (fs : Bytes → Option Bytes) (main data : Bytes) (hfs : fs main = some data)
+    (els : List Element) (hp : Asm.parseFile data = .ok (els, none)) (A : Nat) (hA : A < 4294967296)
+    (defs : List (Bytes × Arg)) (name : Bytes) (args : Args) (hels : els.map (·.val) = progVals A defs name args)
+    (tbl : Asm.Table) (hdefs : defsTable defs [] = some tbl)
+    (t : Instr) (hm : mnemonic name = some t) (hw : wellFormed (tabOf tbl) (sig t) args.toList)
+    (hq : ∀ vs, denoteAll (tabOf tbl) (sig t) args.toList = some vs → ¬ svQuirk t vs)
+    (hno : ∀ i hws, ¬ (means (tabOf tbl) A name args.toList = some i ∧ i.wf ∧ Codec.encode i = .ok hws)) :
+    ∃ el o, el ∈ els ∧ el.val = .instruction name args ∧ Asm.run fs main = .done o ∧ o.success = false ∧ o.diags ≠ [] ∧
+      ∀ d ∈ o.diags, d.file = main ∧ d.line = el.line ∧ d.col = el.col := by
+  simp only [progVals] at hels
+  obtain ⟨e1, r1, rfl, h1, hr1⟩ := List.map_eq_cons_iff.mp hels
+  obtain ⟨mid, last, rfl, hmid, hlast⟩ := List.map_eq_append_iff.mp hr1
+  obtain ⟨e2, r2, rfl, h2, hr2⟩ := List.map_eq_cons_iff.mp hlast
+  have : r2 = [] := by simpa using hr2
+  subst this
+  obtain ⟨l1, c1, v1⟩ := e1
+  obtain ⟨l2, c2, v2⟩ := e2
+  simp only at h1 h2
+  subst h1 h2
+  refine ⟨⟨l2, c2, .instruction name args⟩, ?_⟩
+  let inc := Asm.assembleFile fs Asm.encoder (Asm.maxDepth - 1)
+  let env : Asm.Env := ⟨[main], main⟩
+  let S0 : Asm.St := ⟨⟨[], some ⟨A, [], Map.u32Max - A + 1⟩, []⟩, [], some tbl, [], some [], []⟩
+  have haddr : Asm.statement fs Asm.encoder inc env init2 ⟨l1, c1, .directive (bytesOf "addr") (Args.ofList [.const A])⟩ =
+      .ok (⟨⟨[], some ⟨A, [], Map.u32Max - A + 1⟩, []⟩, [], some [], [], some [], []⟩, .ok) := by
+    have := Asm.addr_ok fs inc env init2 [] (by simp [env]) rfl rfl l1 c1 (A : Int) (by omega) (by omega)
+    simp only [Asm.statement, Show.toList_ofList, this]
+    simp [init2]
+  obtain ⟨hdefsrun, hnd⟩ := doAssemble_defs fs Asm.encoder inc env (by simp [env]) defs mid
+    [⟨l2, c2, .instruction name args⟩] none
+    ⟨⟨[], some ⟨A, [], Map.u32Max - A + 1⟩, []⟩, [], some [], [], some [], []⟩ [] tbl hmid rfl
+    (by intro n; simp [Asm.Table.find]) hdefs
+  have hi64 : tblI64 tbl := defsTable_i64 defs [] tbl (by intro n v h; simp [Asm.Table.find] at h) hdefs
+  have hstmt : Asm.statement fs Asm.encoder inc env S0 ⟨l2, c2, .instruction name args⟩ =
+      Asm.instruction Asm.encoder env S0 l2 c2 name args.toList := by simp [Asm.statement, S0]
+  have hdo : Asm.doAssemble fs Asm.encoder inc env
+      (⟨l1, c1, .directive (bytesOf "addr") (Args.ofList [.const A])⟩ :: (mid ++ [⟨l2, c2, .instruction name args⟩])) none init2 =
+      match Asm.instruction Asm.encoder env S0 l2 c2 name args.toList with
+      | .ok (st', .ok) => .ok (st', .ok)
+      | .ok (st', .err lv) => .ok (st', .err lv)
+      | .stop s => .stop s := by
+    simp only [Asm.doAssemble]
+    rw [haddr]
+    simp only
+    rw [hdefsrun]
+    simp only [Asm.doAssemble]
+    rw [hstmt]
+    cases Asm.instruction Asm.encoder env S0 l2 c2 name args.toList with
+    | ok p => obtain ⟨st', r⟩ := p; cases r <;> rfl
+    | stop s => rfl
+  have hfb := fileBody_eq fs inc env data init2 _ hp
+  rw [hdo] at hfb
+  have hcur : S0.seg.active.map Seg.Active.cur = some A := by simp [S0, Show.cur_empty A _ hA]
+  have hp0 : PAt main l2 c2 S0 := ⟨fun d hd => by simp [S0] at hd, fun t ht => by simp [S0] at ht,
+    fun q hq t ht => by simp [S0] at hq; subst hq; simp at ht⟩
+  cases hX : Asm.instruction Asm.encoder env S0 l2 c2 name args.toList with
+  | stop s =>
+    rw [hX] at hfb
+    simp only at hfb
+    have := body_stop_fuel fs main data hfs s hfb
+    subst this
+    exact absurd hX (Asm.instruction_nf _ _ _ _ _ _ _)
+  | ok p =>
+    obtain ⟨st1, r1⟩ := p
+    have herr1 : 1 ≤ st1.errors.length := by
+      have := instr_diag env S0 tbl hnd hi64 (by simp [env]) rfl [] ⟨A, [], Map.u32Max - A + 1⟩ [] rfl l2 c2 name args.toList t hm hw hq
+        (by rw [Show.cur_empty A _ hA]; exact hno) st1 r1 hX
+      simpa [S0] using this
+    have hp1 : PAt main l2 c2 st1 :=
+      pat_of_eff hp0 (Asm.instruction_eff (env := env) _ _ hX) (Asm.instruction_quiet _ _ hX)
+    rw [hX] at hfb
+    have hfin : ∀ (st4 : Asm.St) (r : Asm.Res), Asm.fileBody fs Asm.encoder inc env data init2 = .ok (st4, r) →
+        1 ≤ st4.errors.length → PAt main l2 c2 st4 → _ := fun st4 r hb he hpt =>
+      run_of_body fs main data hfs l2 c2 st4 r hb he hpt
+    have hgoal : ∃ o, Asm.run fs main = .done o ∧ o.success = false ∧ o.diags ≠ [] ∧ ∀ d ∈ o.diags, d.at main l2 c2 := by
+      by_cases hfat : r1 = .err .fatal
+      · subst hfat
+        simp only [if_true] at hfb
+        exact hfin st1 _ hfb herr1 hp1
+      · have hr1 : (if r1 = Asm.Res.err Asm.Level.fatal then (Asm.Out.ok (st1, r1) : Asm.Out (Asm.St × Asm.Res)) else
+              match st1.localTasks with
+              | none => .stop .panic
+              | some tasks => Asm.localLoop Asm.encoder env Asm.rounds tasks { st1 with localTasks := some [] } r1) =
+            (match st1.localTasks with
+              | none => .stop .panic
+              | some tasks => Asm.localLoop Asm.encoder env Asm.rounds tasks { st1 with localTasks := some [] } r1) := if_neg hfat
+        have hfb1 : Asm.fileBody fs Asm.encoder inc env data init2 =
+            (match st1.localTasks with
+              | none => .stop .panic
+              | some tasks => Asm.localLoop Asm.encoder env Asm.rounds tasks { st1 with localTasks := some [] } r1) := by
+          rw [hfb, ← hr1]; cases r1 <;> rfl
+        cases hlt : st1.localTasks with
+        | none =>
+          rw [hlt] at hfb1
+          have := body_stop_fuel fs main data hfs _ hfb1
+          cases this
+        | some tasks =>
+          rw [hlt] at hfb1
+          simp only at hfb1
+          cases hY : Asm.localLoop Asm.encoder env Asm.rounds tasks { st1 with localTasks := some [] } r1 with
+          | stop s =>
+            rw [hY] at hfb1
+            have := body_stop_fuel fs main data hfs s hfb1
+            subst this
+            exact absurd hY (Asm.localLoop_nf _ _ _ _ _ _)
+          | ok q =>
+            obtain ⟨st2, r2⟩ := q
+            rw [hY] at hfb1
+            have hg := (Asm.localLoop_grew _ _ _ _ _ _ hY).1
+            have hp2 : PAt main l2 c2 st2 := localLoop_pat Asm.rounds tasks _ r1 (hp1.lt tasks hlt)
+              (show PAt main l2 c2 ({ st1 with localTasks := some [] } : Asm.St) from ⟨hp1.errs, hp1.gt, fun q hq t ht => by
+                have hq' : (some ([] : List Asm.Task)) = some q := hq
+                cases hq'; cases ht⟩) _ _ hY
+            exact hfin st2 r2 hfb1 (by simp only at hg; omega) hp2
+    obtain ⟨o, h1, h2, h3, h4⟩ := hgoal
+    exact ⟨o, by simp, rfl, h1, h2, h3, fun d hd => h4 d hd⟩
+
+/-- non-vacuity of `run_defs_stmt_diag`: `ADDS R1, R1, 300` and `ADDS R1, 300` have no encodable meaning, with known
+mnemonic and well-formed operands -/
+example : mnemonic (bytesOf "ADDS") = some (.add true 0 0 (.imm 0)) ∧
+    wellFormed (tabOf []) (sig (.add true 0 0 (.imm 0))) [.ident (bytesOf "R1"), .ident (bytesOf "R1"), .const 300] ∧
+    means (tabOf []) 0 (bytesOf "ADDS") [.ident (bytesOf "R1"), .ident (bytesOf "R1"), .const 300] = some (.add true 1 1 (.imm 300)) ∧
+    Codec.encode (.add true 1 1 (.imm 300)) = .error .unrepresentable ∧
+    means (tabOf []) 0 (bytesOf "ADDS") [.ident (bytesOf "R1"), .const 300] = none := by
+  refine ⟨by decide, ⟨fun h => by simp [evaluated] at h, fun h => by simp [evaluated] at h,
+    fun _ => ⟨by decide, by decide, by decide⟩, trivial⟩, by decide, rfl, by decide⟩
 
 end Trion.C04
